@@ -281,8 +281,9 @@ impl GenerationPass for AvailableValuePass {
                 changed |= node.set_reg_values_out(out_reg_n);
                 changed |= node.set_memory_values_out(out_memory_n);
 
-                // Add node to visited
-                visited.insert(Rc::clone(&node));
+                // Add node to visited. A node seen for the first time counts as a
+                // change: the nodes before it have not yet taken it into account
+                changed |= visited.insert(Rc::clone(&node));
             }
         }
         Ok(())
